@@ -6,7 +6,9 @@ Import ListNotations.
 Local Open Scope Z_scope.
 
 Inductive ity := I8 | I16 | I32 | I64 | U8 | U16 | U32 | U64.
-Inductive ty := TInt (t : ity) | TBool | TVoid | TStruct (sid : nat).   (* struct sid: fields are integers (Syntax.structs table) *)
+Inductive ty := TInt (t : ity) | TBool | TVoid | TStruct (sid : nat)   (* struct sid: fields are integers (Syntax.structs table) *)
+              | TMutRef (sid : nat).   (* parameter type only: mutable reference &'S<sid>; inside the callee the parameter is used
+                                          like a struct variable, and the caller's variable receives its final value *)
 
 Inductive binop := Add | Sub | Mul | Div | Mod | Eq | Ne | Lt | Le | Gt | Ge | And | Or.
 Inductive unop := Neg | Not.
@@ -20,7 +22,9 @@ Inductive expr :=
 | ECast (a : expr) (t : ity)
 | ECall (f : nat) (args : list expr)
 | EStructLit (sid : nat) (es : list expr)      (* { .F0 = e0, .F1 = e1, ... } as S<sid> *)
-| EField (e : expr) (k : nat).                  (* e.F<k> *)
+| EField (e : expr) (k : nat)                   (* e.F<k> *)
+| ECallR (f : nat) (args : list (bool * expr)). (* f(a1, ..., an) where an argument flagged true is a variable passed by mutable
+                                                   reference (&'x): the variable holds the parameter's final value after the call *)
 
 Inductive stmt :=
 | SSkip
@@ -53,8 +57,14 @@ Definition ty_eqb (a b : ty) : bool :=
   | TBool, TBool => true
   | TVoid, TVoid => true
   | TStruct a, TStruct b => Nat.eqb a b
+  | TMutRef a, TMutRef b => Nat.eqb a b
   | _, _ => false
   end.
+
+(* the type a parameter has inside its function *)
+Definition pty_in (t : ty) : ty := match t with TMutRef s => TStruct s | _ => t end.
+Definition is_ref (t : ty) : bool := match t with TMutRef _ => true | _ => false end.
+Definition is_var (e : expr) : bool := match e with EVar _ => true | _ => false end.
 
 (* struct table: struct sid has the listed integer field types (by-value aggregates) *)
 Definition structs_t := list (list ity).
